@@ -1,6 +1,6 @@
 """C12 — slice views and C option/result/tuple types are lossless.
 Case format: '12 <elem> | row ; row ..' elem (for view rows): 0 1-byte, 1 8-byte, 3 zero-sized, 4 3-byte struct.  Rows:
- '0 b..'        UTF-8 decision of TryFrom<CSliceRef<u8>>/<CSliceMut<u8>> for &str            -> [accepted]
+ '0 b..'        UTF-8 decision of TryFrom<CSliceRef<u8>>/<CSliceMut<u8>> for &str            -> [accepted as &str from CSliceRef; as &str from CSliceMut; as &mut str from CSliceMut]
  '1 k v'        Option (k=0 None / 1 Some(v)) -> COption -> Option, droppable payload        -> [tag payload tag payload]
  '2 k v'        Result (k=0 Ok(v) / 1 Err(v)) -> CResult -> Result                           -> [tag payload tag payload]
  '3 v..'        tuple of 1..4 droppable values -> CTupN -> tuple                              -> v..
